@@ -37,6 +37,12 @@ func genCase(t *rapid.T) qcase.Case {
 	for attempt := 0; attempt < 4; attempt++ {
 		g := cy.Graph(t)
 		q := cy.Generate(t, genOptionsFor(t))
+		for _, f := range q.Features {
+			if f == "template-5" && rapid.IntRange(0, 2).Draw(t, "ranked-graph") != 0 {
+				// a ranking query: a graph on which the counts per source differ pairwise
+				g = cy.RankedGraph(t)
+			}
+		}
 		c = qcase.Case{Graph: g, Query: q.Text, Params: q.Params, Features: q.Features}
 		model, err := xlate.Parse(c.Query)
 		if err == nil && rapid.IntRange(0, 2).Draw(t, "plant") != 0 {
